@@ -29,7 +29,10 @@ carry a `body`: nested operations it performs every time it is called during an 
 read the getters, construct / assign / validate other instances, open a `disabled()` block of its own and flip the
 switch inside it (as a whole a body gives the switch back as it found it).  What the nested operations observe
 is recorded per call (`nested`) and judged by the same step rules, starting from the switch position observed
-before the outer operation: no operation may move the switch on the way to, or around, its callbacks.
+before the outer operation (moved only by earlier runs of the body during the same operation): no operation may
+move the switch on the way to, or around, its callbacks.  A body may also leave the switch flipped (a converter
+calling `set_disabled(True)`): the construction's validators then follow the switch as it is when the validators
+step is reached -- the fixed reading of "iff enabled" -- and the harness puts the switch back after the operation.
 
 Classes are created fresh for every case (nothing a reader may memoise on a class survives into another case, so
 replays are exact).  Every validator checks that it is called with the Attribute of the instance's own class and
@@ -69,7 +72,8 @@ ASSUMPTIONS = [
     "recording callbacks stand for arbitrary validators/converters/hooks: which ran, in which order, and which one raised is what is compared",
     "the inheritance relation between the classes of a case is harness-only: the model judges every reader by the resolved field list of the class named (C20_readers_memoryless); all classes of a hierarchy use the same front-end and class-level on_setattr; a plain class in between only for dict classes (K6 concerns slotted ones)",
     "single-threaded use (the switch is documented as not thread-safe)",
-    "callback bodies are neutral (setters only inside blocks the body itself closes), so the outer operation is unaffected by them: what happens to the rest of an operation when a callback leaves the switch flipped is not fixed by the property and not generated; nested readers' own callbacks have no bodies (depth 1)",
+    "FIXED READING of an ambiguity ('iff globally enabled' -- at which instant?): a construction follows the switch as it is when its validators step is reached, i.e. after the pre-init hook, factories and converters of that construction ran (what the unchanged code does); set_disabled()/set_run_validators() called from inside such a callback is a switch operation like any other; validate(inst) reads the switch once when called",
+    "callback bodies close the blocks they open; they may leave the switch flipped (setters outside blocks) unless the probing callback can run during one of the history's assignments (each hook of an assignment reads the switch for itself; flips between them are not modelled); after an operation whose callback bodies can leave the switch flipped the harness puts the switch back to the position the operation found, so the history continues from there; nested readers' own callbacks have no bodies (depth 1)",
     "construction is modelled through the shared initializer model (Model/Init.lean), tied to the code by the C01/C02 correspondence as well",
 ]
 EXHAUSTIVE = {"quick": False, "thorough": True}
@@ -412,6 +416,7 @@ def _observe(case, open_cms):
         """an operation that is not a bracket"""
         on = insts if on is None else on
         ret = exc = None
+        before = get_run() if (into is None and flipping and k in READERS) else None
         try:
             if k == "setDisabled":
                 V.set_disabled(ARGS[a["a"]])
@@ -453,6 +458,13 @@ def _observe(case, open_cms):
             exc = "other"
         except BaseException as e:  # noqa: BLE001
             exc = _exc(e)
+        if before is True or before is False:
+            # the callbacks' switch operations took effect inside the operation (that is what is under test);
+            # the history itself continues from the position the operation found
+            try:
+                set_run(before)
+            except BaseException:  # noqa: BLE001
+                pass
         record(ret, exc, into=into)
 
     def manual(ops, cms, into=None, on=None, cm_factory=new_cm):
@@ -483,6 +495,7 @@ def _observe(case, open_cms):
             record(None, exc, swallowed, into=into)
 
     body = case.get("body") or []
+    flipping = bool(body) and not _neutral(body)
 
     def run_body():
         """what the probing callback does when it is called: the nested operations, on instances of their own,
@@ -817,6 +830,36 @@ def _sim(run, ops):
     return None if stack else run
 
 
+def _assign_events(cls, f):
+    """callback identities an assignment to field f can run (validators as if enabled)"""
+    hook = f["onSet"] if f["onSet"] != "unset" else cls["clsOnSet"]
+    if hook == "unset":
+        ch = ["convert", "validate"] if cls["isDefine"] else []
+    elif hook == "noOp":
+        ch = []
+    else:
+        ch = hook["chain"]["l"]
+    out = []
+    for pos, p in enumerate(ch):
+        if p == "custom":
+            out.append(("hook", f["name"], pos))
+        elif p == "convert" and f["conv"]:
+            out.append(("conv", f["name"], 0))
+        elif p == "validate":
+            out += [("validator", f["name"], i) for i in range(f["validators"])]
+    return out
+
+
+def _fires(case, op):
+    """the probing callback can run during this assignment"""
+    k, a = _op(op)
+    pr = case.get("probe")
+    if k != "assign" or not pr:
+        return False
+    cls = case["classes"][a["k"]]
+    return (pr["kind"], pr["field"], pr["idx"]) in _assign_events(cls, cls["fields"][a["i"]])
+
+
 def _neutral(body):
     return _sim(True, body) is True and _sim(False, body) is False
 
@@ -871,6 +914,38 @@ def _rand_body(rng, classes, max_len=7):
     return body
 
 
+FLIPS = [[{"setDisabled": {"a": "T"}}], [{"setDisabled": {"a": "F"}}], [{"setRun": {"a": "F"}}], [{"setRun": {"a": "T"}}],
+         ["getRun", {"setDisabled": {"a": "T"}}, "getDisabled"], ["enter", {"setRun": {"a": "T"}}, "exit", {"setDisabled": {"a": "T"}}],
+         [{"setRun": {"a": "int0"}}, {"setDisabled": {"a": "T"}}]]
+
+
+def _flip_body(rng, classes):
+    """a body that may leave the switch flipped: setters outside blocks, readers, reads"""
+    body = list(rng.choice(FLIPS))
+    for _ in range(rng.choice([0, 0, 1, 2])):
+        extra = rng.choice(["getRun", "getDisabled"]) if rng.random() < 0.4 else \
+            (_target(classes, rng, rng.choice(["construct", "validate"])) or "getRun")
+        body.insert(rng.randrange(len(body) + 1), extra)
+    return body
+
+
+def _flip_sweeps(hier, fault, rng):
+    """the switch moved from inside a construction, before / after its validators step: every callback of the
+    hierarchy in turn flips (each way) while every class is constructed and validated, enabled and inside a block;
+    assignments only where the flipping callback cannot run"""
+    classes = resolve(hier)
+    for probe in _callbacks(hier):
+        for body in FLIPS[:4]:
+            ops = []
+            for k, c in enumerate(classes):
+                ops += [{"construct": {"k": k}}, {"validate": {"k": k}}]
+                ops += [{"assign": {"k": k, "i": i, "v": "fresh"}} for i in range(len(c["fields"]))]
+            ops = ops + ["enter"] + ops + [rng.choice(["exit", "exitExc"])]
+            case = mk_case(_restyle(hier, rng), fault, rng.random() < 0.5, ops, _rand_cfg(rng), probe, body)
+            case["ops"] = [o for o in case["ops"] if not _fires(case, o)]
+            yield case
+
+
 def _std_body(classes, rng):
     ks = list(range(len(classes)))
     k = rng.choice(ks)
@@ -899,12 +974,21 @@ def _probe_sweeps(hier, fault, rng):
             yield mk_case(_restyle(hier, rng), fault, start, ops, _rand_cfg(rng), probe, _std_body(classes, rng))
 
 
+def _unfire(case):
+    """a body that leaves the switch flipped stays out of assignments: those become validate() of the instance"""
+    if case["body"] and not _neutral(case["body"]):
+        case["ops"] = [({"validate": {"k": _op(o)[1]["k"]}} if _fires(case, o) else o) for o in case["ops"]]
+    return case
+
+
 def _maybe_probe(hier, rng, p):
     cbs = _callbacks(hier)
     if not cbs or rng.random() >= p:
         return None, []
     classes = resolve(hier)
-    return rng.choice(cbs), (_std_body(classes, rng) if rng.random() < 0.3 else _rand_body(rng, classes))
+    r = rng.random()
+    return rng.choice(cbs), (_std_body(classes, rng) if r < 0.25 else _flip_body(rng, classes) if r < 0.55
+                             else _rand_body(rng, classes))
 
 
 def _sweeps(hier, fault, rng):
@@ -959,6 +1043,11 @@ def gen_cases(tier, rng):
     for _ in range(6 if tier == "quick" else 80):
         hier, fault = _rand_hier(rng)
         yield from _probe_sweeps(hier, fault, rng)
+    for hier, fault in (POOL if tier == "thorough" else rng.sample(POOL, 8)):
+        yield from _flip_sweeps(hier, fault if rng.random() < 0.3 else None, rng)
+    for _ in range(5 if tier == "quick" else 60):
+        hier, fault = _rand_hier(rng)
+        yield from _flip_sweeps(hier, fault, rng)
     # exhaustive block
     k = 0
     for ops in _enumerate(max_len):
@@ -971,14 +1060,16 @@ def gen_cases(tier, rng):
             for hier, fault in picks:
                 hier = _restyle(hier, rng)
                 probe, body = _maybe_probe(hier, rng, 0.35)
-                yield mk_case(hier, fault, start, _bind(_close(ops, rng), resolve(hier), rng), _rand_cfg(rng), probe, body)
+                yield _unfire(mk_case(hier, fault, start, _bind(_close(ops, rng), resolve(hier), rng), _rand_cfg(rng),
+                                      probe, body))
     # random block: longer histories, random hierarchies, non-bool arguments, get operations
     n = 1_000_000 if tier == "quick" else 90_000
     for _ in range(n):
         hier, fault = _rand_hier(rng) if rng.random() < 0.8 else rng.choice(POOL)
         hier = _restyle(hier, rng)
         probe, body = _maybe_probe(hier, rng, 0.5)
-        yield mk_case(hier, fault, rng.random() < 0.6, _rand_ops(rng, resolve(hier), 12, 4), _rand_cfg(rng), probe, body)
+        yield _unfire(mk_case(hier, fault, rng.random() < 0.6, _rand_ops(rng, resolve(hier), 12, 4), _rand_cfg(rng),
+                              probe, body))
 
 
 def nontrivial(case, model):
@@ -1044,6 +1135,7 @@ def dist(case, obs):
         "probe": (case.get("probe") or {}).get("kind"),
         "body_len": min(len(case.get("body") or []), 9),
         "body_flips": sum(1 for o in case.get("body") or [] if _op(o)[0] in ("setDisabled", "setRun", "enter")),
+        "body_leaves_switch_flipped": bool(case.get("body")) and not _neutral(case["body"]),
         "body_runs": min(6, sum(len(n) for n in obs.get("nested", []))) if isinstance(obs, dict) else 0,
         "constructs_disabled_with_post_and_validators": min(3, sum(
             1 for o, s in zip(case["ops"], steps) if _op(o)[0] == "construct" and s["run"] == "f"
@@ -1063,8 +1155,10 @@ def _valid(case):
         return False
     cl = case["classes"]
     body = case.get("body") or []
-    if body and not _neutral(body):
-        return False
+    if body and (_sim(True, body) is None or _sim(False, body) is None):
+        return False               # the body must close the blocks it opens
+    if body and not _neutral(body) and any(_fires(case, o) for o in case["ops"]):
+        return False               # flips between the hooks of one assignment are not modelled
     for o in list(case["ops"]) + list(body):
         k, a = _op(o)
         if k in READERS and not (0 <= a["k"] < len(cl)):
@@ -1177,7 +1271,9 @@ LEVEL_TEXT = (
     "C20_disabled_inside, C20_block_silences_validators, C20_nonbool_rejected_state_unchanged, "
     "C20_assign_value_irrelevant (no short cut for re-binding the object already stored), C20_readers_memoryless (what a reader runs depends only on the class of the instance and the switch, not on which "
     "instances of which classes of the hierarchy were read before), "
-    "C20_callbacks_see_callers_switch / C20_getter_inside_callback / C20_switch_moves_only_by_switch_ops (nested operations "
+    "C20_construct_reads_switch_at_validators_step (validators of a construction follow the switch as left by the switch "
+    "operations its own pre-init hook / factories / converters performed; a reading taken at the top of the call is "
+    "excluded), C20_callbacks_see_callers_switch / C20_getter_inside_callback / C20_switch_moves_only_by_switch_ops (nested operations "
     "performed from inside any callback observe exactly what they would as a history started from the switch position the "
     "outer operation found; only the setters, enter and the exits move the switch; a well-formed body is neutral), "
     "C20_hooks_unaffected / C20_construct_callbacks (a construction calls pre-init, per field factory and converter, "
